@@ -702,7 +702,11 @@ class Interp:
                 tg = self.repo.resolve_call(self.fi_stack[-1], call, virtual=False)
             except Exception:
                 tg = []
-            tg = [t for t in tg if t.where not in known_functions() and not any(f.node is t.node for f in self.fi_stack)]
+            tg = [t for t in tg if t.where not in known_functions()]
+            # a helper that calls itself (retry-once recursion) is followed through two nested activations; beyond that the call is opaque and says so
+            if len(tg) == 1 and sum(1 for f in self.fi_stack if f.node is tg[0].node) >= 3:
+                n, st = st.fresh()
+                return [('ok', T('call', name, C(n)), st.emit('recursion-cut', tg[0].name))]
             if len(tg) == 1 and len(list(ast.walk(tg[0].node))) < 600:
                 return self.call_function(tg[0], args, kwargs, st, recv=recv)
         out = []
@@ -1157,11 +1161,166 @@ class Interp:
         w = _iter_sentinel_loop(s)
         if w is not None:
             return self.st_While(w, st)
+        fused = self._fuse_generator_loop(s)
+        if fused is not None:
+            return self.block(fused, st)
         out = []
         for itv, s0 in self.ev(s.iter, st):
+            if getattr(self, 'range_loops', False):
+                r = self._for_value(s, itv, s0)
+                if r is not None:
+                    out.extend(r)
+                    continue
             items = self.for_elements(s, itv, s0)
             out.extend(self._loop(s, s0, items))
         return out
+
+    def _fuse_generator_loop(self, s):
+        """`for T in gen(args): BODY` over a generator function of the same module / class = the generator's body run in place, BODY executed at each
+        `yield v` with T = v (the lazy interleaving of producer and consumer, exactly). Only for shapes where that is exact: statement-level yields,
+        no return in the generator, no break / continue / else on the consumer loop, plain argument passing. None otherwise (the generator stays opaque)."""
+        import copy as _copy
+        if s.orelse or not self.fi_stack or len(self.fi_stack) > 10:
+            return None
+        cur = self.fi_stack[-1]
+        call = s.iter
+        if isinstance(call, ast.Name):
+            call = cur.unique_def(call.id)
+        if not isinstance(call, ast.Call) or any(isinstance(a, ast.Starred) for a in call.args) or any(k.arg is None for k in call.keywords):
+            return None
+        try:
+            tg = self.repo.resolve_call(cur, call, virtual=False)
+        except Exception:
+            return None
+        if len(tg) != 1 or not tg[0].yields():
+            return None
+        g = tg[0]
+        if g.module is not cur.module or g.cls is not cur.cls or any(f is g for f in self.fi_stack) or g.vararg or g.kwarg:
+            return None
+        gbody = [x for x in g.body() if not (isinstance(x, ast.Expr) and isinstance(x.value, ast.Constant) and isinstance(x.value.value, str))]
+        stmt_yields = {id(x.value) for b in gbody for x in ast.walk(b) if isinstance(x, ast.Expr) and isinstance(x.value, ast.Yield)}
+        for b in gbody:
+            for x in ast.walk(b):
+                if isinstance(x, (ast.YieldFrom, ast.Return, ast.FunctionDef, ast.AsyncFunctionDef, ast.Lambda, ast.Global, ast.Nonlocal, ast.Try, ast.With)):
+                    return None
+                if isinstance(x, ast.Yield) and id(x) not in stmt_yields:
+                    return None
+
+        def own_jumps(stmts):
+            for x in stmts:
+                if isinstance(x, (ast.Break, ast.Continue)):
+                    return True
+                if isinstance(x, (ast.For, ast.While, ast.FunctionDef)):
+                    continue
+                for f_ in ('body', 'orelse', 'finalbody'):
+                    if own_jumps(getattr(x, f_, []) or []):
+                        return True
+                for h in getattr(x, 'handlers', []) or []:
+                    if own_jumps(h.body):
+                        return True
+            return False
+        if own_jumps(s.body):
+            return None
+        params = list(g.params)
+        binds = []
+        if g.is_method:
+            if not (isinstance(call.func, ast.Attribute) and params):
+                return None
+            binds.append((params[0], call.func.value))
+            params = params[1:]
+        if len(call.args) > len(params):
+            return None
+        for p, a in zip(params, call.args):
+            binds.append((p, a))
+        bound = {p for p, _ in binds}
+        for k in call.keywords:
+            if k.arg in bound or k.arg not in params + g.kwonly:
+                return None
+            binds.append((k.arg, k.value))
+            bound.add(k.arg)
+        for p, d in g.defaults().items():
+            if p not in bound:
+                binds.append((p, d))
+                bound.add(p)
+        if any(p not in bound for p in params + g.kwonly):
+            return None
+        local = set(g.params) | set(g.kwonly) | {x.id for b in gbody for x in ast.walk(b) if isinstance(x, ast.Name) and isinstance(x.ctx, ast.Store)}
+        pre = '_g%d_' % s.lineno
+
+        class Ren(ast.NodeTransformer):
+            def visit_Name(self, n):
+                return ast.copy_location(ast.Name(id=pre + n.id, ctx=n.ctx), n) if n.id in local else n
+        consumer = s
+
+        class Fuse(ast.NodeTransformer):
+            def visit_Expr(self, n):
+                if isinstance(n.value, ast.Yield):
+                    v = n.value.value if n.value.value is not None else ast.Constant(value=None)
+                    return [ast.copy_location(ast.Assign(targets=[_copy.deepcopy(consumer.target)], value=v), n)] + [_copy.deepcopy(x) for x in consumer.body]
+                return n
+        out = [ast.copy_location(ast.Assign(targets=[ast.Name(id=pre + p, ctx=ast.Store())], value=_copy.deepcopy(a)), s) for p, a in binds]
+        for b in gbody:
+            nb = Ren().visit(_copy.deepcopy(b))
+            r = Fuse().visit(nb)
+            out.extend(r if isinstance(r, list) else [r])
+        for x in out:
+            ast.fix_missing_locations(x)
+        return out
+
+    range_loops = False     # opt-in: chain(...) and range(a, b, step) iterated on terms (used by the symbolic walkers)
+
+    def _for_value(self, s, itv, st):
+        """chain(p1, p2, ..) = the loops over its parts one after the other (loops without break / else only);
+        range(a, b, step) with a provably positive step = a counting while-loop on terms, its exit test recorded as a path fact. None = not of these forms."""
+        if self._is_ref(itv):
+            itv = st.heap.get(itv, itv)
+        if not (is_t(itv) and itv[1] == 'call' and isinstance(itv[2], str)):
+            return None
+        name = itv[2].split('.')[-1]
+        # layout of an uninterpreted call: ('t', 'call', name, <path-local sequence number>, arg, ...)
+        if name == 'chain' and len(itv) > 4:
+            own_break = any(isinstance(n, ast.Break) for b in s.body for n in ast.walk(b))
+            if s.orelse or own_break:
+                return None
+            out, states = [], [st]
+            for part in itv[4:]:
+                nxt = []
+                for cur in states:
+                    p = cur.heap.get(part, part) if self._is_ref(part) else part
+                    r = self._for_value(s, p, cur)
+                    if r is None:
+                        r = self._loop(s, cur, self.for_elements(s, p, cur))
+                    for kind, val, s2 in r:
+                        (nxt if kind == 'fall' else out).append(s2 if kind == 'fall' else (kind, val, s2))
+                states = nxt
+            out.extend(('fall', None, x) for x in states)
+            return out
+        if name == 'range' and 5 <= len(itv) <= 7:
+            args = list(itv[4:])
+            lo, hi, step = (C(0), args[0], C(1)) if len(args) == 1 else (args[0], args[1], args[2] if len(args) == 3 else C(1))
+            pos = [b for b, _ in self.cmp(ast.Gt(), step, C(0), st)]
+            if pos != [True]:
+                return None
+            out, work = [], [(st, lo, 0)]
+            while work:
+                cur, r, n = work.pop()
+                for b, s1 in self.cmp(ast.Lt(), r, hi, cur):
+                    if not b:
+                        out.extend(self.block(s.orelse, s1) if s.orelse else [('fall', None, s1)])
+                        continue
+                    if n >= self.unroll + 1:
+                        self.truncated = getattr(self, 'truncated', 0) + 1
+                        continue
+                    for s2 in self.assign_to(s.target, r, s1):
+                        for kind, val, s3 in self.block(s.body, s2):
+                            if kind in ('fall', 'continue'):
+                                work.append((s3, T('Add', r, step), n + 1))
+                            elif kind == 'break':
+                                out.append(('fall', None, s3))
+                            else:
+                                out.append((kind, val, s3))
+            return out
+        return None
 
     def for_elements(self, s, itv, st):
         """-> list of candidate element sequences (each a list of abstract elements)."""
